@@ -166,7 +166,10 @@ def check_use_sites(r, case, par, text, what):
     preds += " " + " ".join(f"(t3_{t} ?a - object ?b - object ?c - {t}) (u3_{t} ?a - {t} ?b - object ?c - {t}) "
                             f"(v3_{t} ?a - object ?b - {t} ?c - object)" for t in allt)
     base = f"(:predicates (r) (mk ?x - object) (mk2 ?x - object) {preds})\n(:functions {funcs})\n"
-    D = guard(parse_domain, domain_text(text, f"(:constants {consts})\n" + base))
+    touch = "\n".join(
+        f"(:action touch_{t} :parameters (?x - {t}) :precondition (and (p_object ?x)"
+        + (f" (p_{par[t]} ?x)" if par.get(t) else "") + ") :effect (and (mk ?x)))" for t in names)
+    D = guard(parse_domain, domain_text(text, f"(:constants {consts})\n" + base + touch))
     Dq = guard(parse_domain, domain_text(text, base + actions))
     if isinstance(D, Raised) or isinstance(Dq, Raised):
         r.fail("use-site-domain-rejected", f"(:types {text}): use-site domain raised {D} / {Dq}", "parsed", str(D),
@@ -175,6 +178,15 @@ def check_use_sites(r, case, par, text, what):
 
     def sub(a, b):
         return closure(par, a, b) if a != "object" else b == "object"
+
+    # the declarations are used before they are asked about: every touch_t is grounded and tested once (its parameter
+    # is narrower than the declared parameter of the predicates it mentions); what a predicate accepts stays as declared
+    p0 = guard(parse_problem, f"(define (problem p) (:domain t) (:objects {objs}) (:init) (:goal (and)))", D)
+    if not isinstance(p0, Raised):
+        from pddl_plus_parser.multi_agent.common import create_initial_state as _cis
+        for t in names:
+            guard(lambda: operator(D, f"touch_{t}", [f"o_{t}"], p0.objects).is_applicable(_cis(p0)))
+            r.count("transitions")
 
     for tau in allt:
         for rho in allt:
@@ -215,8 +227,41 @@ def check_use_sites(r, case, par, text, what):
                        f"{'accepted' if want else 'rejected'}", want, not isinstance(got, Raised),
                        tags=case["tags"] + [what, "goal"])
                 return
-    # quantifier ranges
+    # quantifier ranges; a second object of every type is declared after all the first ones (objects of one type are
+    # not neighbours in the declaration), and must be ranged over like the first
     from ..refsem import RefState
+    objs1 = objs
+    objs = objs + " " + " ".join(f"o2_{t} - {t}" for t in allt)
+    for rho in allt:
+        in_range = [t for t in allt if sub(t, rho)]
+        in_objs = [f"o_{t}" for t in in_range] + [f"o2_{t}" for t in in_range]
+        for missing_o in in_objs:
+            marks = " ".join(f"(mk {o})" for o in in_objs if o != missing_o)
+            ptxt = f"(define (problem p) (:domain t) (:objects {objs}) (:init {marks}) (:goal (and)))"
+            prob = guard(parse_problem, ptxt, Dq)
+            if isinstance(prob, Raised):
+                r.fail("use-site-domain-rejected", f"problem rejected: {prob}", "parsed", str(prob), tags=case["tags"])
+                return
+            from pddl_plus_parser.multi_agent.common import create_initial_state
+            got = guard(lambda: operator(Dq, f"chk_{rho}", [], prob.objects).is_applicable(create_initial_state(prob)))
+            r.count("transitions")
+            if got is not False:
+                r.fail("forall-precondition-range", f"(:types {text}): [two objects per type, declared {objs}] forall (?z - "
+                       f"{rho}) (mk ?z) with every object in range marked except {missing_o} -> {got}, expected False",
+                       False, str(got), tags=case["tags"] + [what, "two-per-type"])
+                return
+        ptxt = (f"(define (problem p) (:domain t) (:objects {objs}) (:init "
+                + " ".join(f"(mk o_{t}) (mk o2_{t})" for t in allt) + ") (:goal (and)))")
+        prob = parse_problem(ptxt, Dq)
+        nxt = guard(lambda: observe_state(operator(Dq, f"clr_{rho}", [], prob.objects).apply(create_initial_state(prob))))
+        r.count("transitions")
+        want_atoms = {("mk", f"{o}_{t}") for t in allt if t not in in_range for o in ("o", "o2")}
+        if isinstance(nxt, Raised) or set(nxt.atoms) != want_atoms:
+            r.fail("forall-effect-range", f"(:types {text}): [two objects per type, declared {objs}] forall (?z - {rho}) "
+                   f"effect left {sorted(nxt.atoms) if not isinstance(nxt, Raised) else nxt}, expected {sorted(want_atoms)}",
+                   sorted(want_atoms), str(nxt), tags=case["tags"] + [what, "two-per-type"])
+            return
+    objs = objs1
     for rho in allt:
         in_range = [t for t in allt if sub(t, rho)]
         marks_all = " ".join(f"(mk o_{t})" for t in in_range)
